@@ -34,6 +34,8 @@ def iter_source(ex, v, st):
         return ('range', a[0].t, a[1].t, a[2].t)
     if isinstance(v, VPy) and isinstance(v.obj, tuple) and v.obj and v.obj[0] == 'dictview':
         _, ref, what = v.obj
+        if st.heap[ref.ref].ktype is None:
+            return ('concrete', [])
         return ('dict' + what, ref)
     if isinstance(v, VTuple):
         return ('concrete', v.items)
